@@ -90,6 +90,23 @@ def check_group(g: common.Group, rng, n, found, stats):
                        {"X": X.tolist(), "from_Matrix": W.tolist()}, d)
 
 
+def check_euler_band(rng, n, found, stats):
+    """products of valid Euler elements that land inside the gimbal band: documented tolerance only"""
+    prod = nl.F("SO3", "SO3Euler.product"); toM = nl.F("SO3", "SO3Euler.toMatrix")
+    tol = 5e-3   # 2*delta (delta < 1e-3) model error of the in-band formula, with margin
+    for k in range(n):
+        X, Y, d = common.euler_band_pair(rng)
+        XY = np.atleast_1d(prod(X, Y))
+        stats["evaluations"] += 1
+        stats["distinct"].add(("SO3Euler@band", k))
+        err = np.max(np.abs(toM(XY) - toM(X) @ toM(Y)))
+        if not err <= tol:
+            if not any(f["case"] == "SO3Euler.product:hom-band" for f in found):
+                found.append({"case": "SO3Euler.product:hom-band", "function": "SO3Euler",
+                              "what": "product landing inside the gimbal band is off by more than the documented band tolerance",
+                              "inputs": {"X": X.tolist(), "Y": Y.tolist(), "delta": d}, "error": float(err), "tolerance": tol})
+
+
 def search(ctx):
     rng = np.random.default_rng(ctx.seed + 101)
     n = 25 if ctx.tier == "quick" else 400
@@ -102,6 +119,10 @@ def search(ctx):
             continue
         except Exception as e:   # entry point raises: reported by extraction; note here
             ctx.notes.append("search: %s raised %s: %s" % (g.name, type(e).__name__, str(e)[:120]))
+    try:
+        check_euler_band(rng, n, found, stats)
+    except Exception as e:
+        ctx.notes.append("search: euler band raised %s" % e)
     for f in found:
         f["obligation"] = "search:" + f["case"]
     if found:
